@@ -34,13 +34,14 @@ import (
 // Source files
 
 type srcFile struct {
-	rel  string // path relative to the repository root, e.g. "grammar/ast.go"
-	path string
-	src  []byte
-	sum  string
-	fset *token.FileSet
-	file *ast.File
-	err  error
+	rel     string // path relative to the repository root, e.g. "grammar/ast.go"
+	path    string
+	src     []byte
+	sum     string
+	fset    *token.FileSet
+	file    *ast.File
+	err     error
+	renamed bool // some function was renamed back to its pinned local names
 }
 
 func loadSrc(repo, rel string) *srcFile {
@@ -53,6 +54,16 @@ func loadSrc(repo, rel string) *srcFile {
 	sf.file, sf.err = parser.ParseFile(sf.fset, sf.path, sf.src, parser.ParseComments|parser.SkipObjectResolution)
 	if sf.err != nil {
 		sf.file = nil
+		return sf
+	}
+	// rename-back normalisation of local identifiers (alpha.go); sum stays that of the file on disk
+	if src2 := renameBack(rel, sf.path, sf.src); len(src2) != len(sf.src) || string(src2) != string(sf.src) {
+		fset2 := token.NewFileSet()
+		if file2, err := parser.ParseFile(fset2, sf.path, src2, parser.ParseComments|parser.SkipObjectResolution); err == nil {
+			sf.src, sf.fset, sf.file = src2, fset2, file2
+			sf.renamed = true
+			fmt.Fprintf(os.Stderr, "xlate: %s: local identifiers renamed back to the pinned names (pins/locals.json)\n", rel)
+		}
 	}
 	return sf
 }
